@@ -7,6 +7,14 @@ package broker
 // contents (`rst`), and the committed offsets.  No repository hook is needed.
 // Replay is adaptive: only the inputs of a schedule are applied; real member ids (rand.Int63) are
 // mapped to model ids, generations are sent relative to the group's current generation.
+//
+// Scheduler point for store I/O (DESIGN 2.5): the coordinator works on a wrapper of the InMemoryStore whose
+// Metadata / PutConsumerGroup / DeleteConsumerGroup can be armed to park the next call.  A step with
+// "hold":true is started in its own goroutine (a Tick: the coordinator's cleanup goroutine) and parks at its
+// first gated store call.  If c.mu is held at that moment (TryLock fails: the tree does this I/O under the
+// lock) the call is released at once and the step is an ordinary sequential one ("hold not replayed").
+// Otherwise the step stays parked outside the lock while the following steps run; a "Release" step (or the
+// next Tick/Failover/hold, or the end of the schedule) lets it finish.
 
 import (
 	"bufio"
@@ -15,20 +23,89 @@ import (
 	"encoding/json"
 	"os"
 	"sort"
+	"sync"
 	"testing"
 	"testing/synctest"
 	"time"
 
+	metadatapb "github.com/KafScale/platform/pkg/gen/metadata"
 	"github.com/KafScale/platform/pkg/metadata"
 	"github.com/KafScale/platform/pkg/protocol"
 	"github.com/twmb/franz-go/pkg/kmsg"
 )
 
 type vgStep struct {
-	A   string   `json:"a"`
-	C   string   `json:"c"`
-	Sub []string `json:"sub"`
-	D   int      `json:"d"`
+	A    string   `json:"a"`
+	C    string   `json:"c"`
+	Sub  []string `json:"sub"`
+	D    int      `json:"d"`
+	Sess int      `json:"sess"`
+	Hold bool     `json:"hold"`
+}
+
+const (
+	vgGateMeta  = 1 // store.Metadata (a read before the decision)
+	vgGateWrite = 2 // PutConsumerGroup / DeleteConsumerGroup (the write after the decision)
+)
+
+// vgGateStore parks the next armed store call until release() is called.
+type vgGateStore struct {
+	metadata.Store
+	mu      sync.Mutex
+	armed   int
+	parked  bool
+	release chan struct{}
+}
+
+func (g *vgGateStore) gate(kind int) {
+	g.mu.Lock()
+	if g.armed&kind == 0 {
+		g.mu.Unlock()
+		return
+	}
+	g.armed = 0
+	g.parked = true
+	ch := make(chan struct{})
+	g.release = ch
+	g.mu.Unlock()
+	<-ch
+}
+
+func (g *vgGateStore) arm(kind int) {
+	g.mu.Lock()
+	g.armed = kind
+	g.mu.Unlock()
+}
+
+func (g *vgGateStore) isParked() bool {
+	g.mu.Lock()
+	defer g.mu.Unlock()
+	return g.parked
+}
+
+func (g *vgGateStore) open() {
+	g.mu.Lock()
+	g.armed = 0
+	if g.parked {
+		g.parked = false
+		close(g.release)
+	}
+	g.mu.Unlock()
+}
+
+func (g *vgGateStore) Metadata(ctx context.Context, topics []string) (*metadata.ClusterMetadata, error) {
+	g.gate(vgGateMeta)
+	return g.Store.Metadata(ctx, topics)
+}
+
+func (g *vgGateStore) PutConsumerGroup(ctx context.Context, group *metadatapb.ConsumerGroup) error {
+	g.gate(vgGateWrite)
+	return g.Store.PutConsumerGroup(ctx, group)
+}
+
+func (g *vgGateStore) DeleteConsumerGroup(ctx context.Context, groupID string) error {
+	g.gate(vgGateWrite)
+	return g.Store.DeleteConsumerGroup(ctx, groupID)
 }
 
 type vgSched struct {
@@ -163,9 +240,10 @@ func TestVerifGroupReplay(t *testing.T) {
 func vgRun(t *testing.T, s vgSched, idx int) []map[string]any {
 	ctx := context.Background()
 	store := vgStore(s.NParts)
+	gate := &vgGateStore{Store: store}
 	start := time.Now()
 	cfg := &CoordinatorConfig{CleanupInterval: time.Second}
-	c := NewGroupCoordinator(store, protocol.MetadataBroker{}, cfg)
+	c := NewGroupCoordinator(gate, protocol.MetadataBroker{}, cfg)
 	real2model := map[string]string{}
 	model2real := map[string]string{}
 	name := func(id string) string {
@@ -234,6 +312,9 @@ func vgRun(t *testing.T, s vgSched, idx int) []map[string]any {
 	}
 	var lines []map[string]any
 	emit := func(m map[string]any) {
+		if _, ok := m["pending"]; !ok {
+			m["pending"] = false
+		}
 		m["st"] = memState()
 		m["rst"] = vgProject(restored(), start, name)
 		m["offs"] = offsets()
@@ -241,13 +322,84 @@ func vgRun(t *testing.T, s vgSched, idx int) []map[string]any {
 		lines = append(lines, m)
 	}
 	emit(map[string]any{"ev": "Reset", "sched": idx, "sess": s.Sess, "reb": s.Reb, "tps": tps})
+	// ---- held steps (see the comment at the top of the file)
+	type heldStep struct {
+		kind string
+		done chan map[string]any
+		line int
+	}
+	var held *heldStep
+	holdsOutside, holdsUnderLock, holdsNoIO := 0, 0, 0
+	releaseHeld := func() {
+		if held == nil {
+			return
+		}
+		h := held
+		held = nil
+		gate.open()
+		switch h.kind {
+		case "Tick":
+			synctest.Wait()
+			emit(map[string]any{"ev": "Release", "c": "", "gen": 0, "code": 0})
+		case "Sync": // parked before its decision: the reply is an ordinary (late) step
+			r := <-h.done
+			r["late"] = true
+			emit(r)
+		default: // parked at the write after its decision: the begin line gets the reply code, the write lands now
+			r := <-h.done
+			lines[h.line]["code"] = r["code"]
+			emit(map[string]any{"ev": "Release", "c": "", "gen": 0, "code": 0})
+		}
+	}
+	// runHeld starts call() in its own goroutine with the gate armed; base = the request fields known before the reply
+	runHeld := func(kind string, mask int, base map[string]any, call func() map[string]any) {
+		releaseHeld()
+		gate.arm(mask)
+		done := make(chan map[string]any, 1)
+		go func() { done <- call() }()
+		synctest.Wait()
+		select {
+		case r := <-done: // no gated store call on this path
+			gate.arm(0)
+			holdsNoIO++
+			emit(r)
+			return
+		default:
+		}
+		if !gate.isParked() {
+			t.Fatalf("held %s is blocked, but not at the store gate", kind)
+		}
+		if !c.mu.TryLock() { // the store call is made under c.mu: nothing can overlap it
+			holdsUnderLock++
+			gate.open()
+			emit(<-done)
+			return
+		}
+		c.mu.Unlock()
+		holdsOutside++
+		if kind == "Sync" {
+			emit(map[string]any{"ev": "Hold", "c": base["c"], "gen": base["gen"], "code": 0})
+			held = &heldStep{kind: kind, done: done, line: -1}
+			return
+		}
+		b := map[string]any{"pending": true, "code": -1}
+		for k, v := range base {
+			b[k] = v
+		}
+		emit(b)
+		held = &heldStep{kind: kind, done: done, line: len(lines) - 1}
+	}
 	for i, st := range s.Steps {
 		switch st.A {
 		case "Join":
 			r := kmsg.NewPtrJoinGroupRequest()
 			r.Group, r.ProtocolType = vgGroup, "consumer"
 			r.MemberID = model2real[st.C] // "" for a first join, the old id otherwise (a removed member gets a fresh id)
-			r.SessionTimeoutMillis, r.RebalanceTimeoutMillis = int32(s.Sess*1000), int32(s.Reb*1000)
+			sess := s.Sess
+			if st.Sess > 0 {
+				sess = st.Sess
+			}
+			r.SessionTimeoutMillis, r.RebalanceTimeoutMillis = int32(sess*1000), int32(s.Reb*1000)
 			p := kmsg.NewJoinGroupRequestProtocol()
 			p.Name, p.Metadata = "range", c.encodeSubscription(st.Sub)
 			r.Protocols = append(r.Protocols, p)
@@ -264,20 +416,35 @@ func vgRun(t *testing.T, s vgSched, idx int) []map[string]any {
 				list = append(list, name(m.MemberID))
 			}
 			sort.Strings(list)
-			emit(map[string]any{"ev": "Join", "c": st.C, "gen": 0, "sub": sub, "code": int(resp.ErrorCode), "rgen": int(resp.Generation), "leader": name(resp.LeaderID), "list": list})
+			emit(map[string]any{"ev": "Join", "c": st.C, "gen": 0, "sub": sub, "sess": sess, "code": int(resp.ErrorCode), "rgen": int(resp.Generation), "leader": name(resp.LeaderID), "list": list})
 		case "Sync":
 			r := kmsg.NewPtrSyncGroupRequest()
 			r.Group, r.MemberID, r.Generation = vgGroup, idOf(st.C), curGen()+int32(st.D)
-			resp, err := c.SyncGroup(ctx, r)
-			if err != nil {
-				t.Fatalf("SyncGroup: %v", err)
+			call := func() map[string]any {
+				resp, err := c.SyncGroup(ctx, r)
+				if err != nil {
+					t.Errorf("SyncGroup: %v", err)
+					return map[string]any{"ev": "Sync", "c": st.C, "gen": int(r.Generation), "code": -1, "asg": [][]any{}}
+				}
+				return map[string]any{"ev": "Sync", "c": st.C, "gen": int(r.Generation), "code": int(resp.ErrorCode), "asg": vgDecodeAsg(resp.MemberAssignment)}
 			}
-			emit(map[string]any{"ev": "Sync", "c": st.C, "gen": int(r.Generation), "code": int(resp.ErrorCode), "asg": vgDecodeAsg(resp.MemberAssignment)})
+			if st.Hold {
+				runHeld("Sync", vgGateMeta, map[string]any{"ev": "Sync", "c": st.C, "gen": int(r.Generation)}, call)
+			} else {
+				emit(call())
+			}
 		case "Heartbeat":
 			r := kmsg.NewPtrHeartbeatRequest()
 			r.Group, r.MemberID, r.Generation = vgGroup, idOf(st.C), curGen()+int32(st.D)
-			resp := c.Heartbeat(ctx, r)
-			emit(map[string]any{"ev": "Heartbeat", "c": st.C, "gen": int(r.Generation), "code": int(resp.ErrorCode)})
+			call := func() map[string]any {
+				resp := c.Heartbeat(ctx, r)
+				return map[string]any{"ev": "Heartbeat", "c": st.C, "gen": int(r.Generation), "code": int(resp.ErrorCode)}
+			}
+			if st.Hold {
+				runHeld("Heartbeat", vgGateWrite, map[string]any{"ev": "Heartbeat", "c": st.C, "gen": int(r.Generation)}, call)
+			} else {
+				emit(call())
+			}
 		case "Commit":
 			r := kmsg.NewPtrOffsetCommitRequest()
 			r.Group, r.MemberID, r.Generation = vgGroup, idOf(st.C), curGen()+int32(st.D)
@@ -306,19 +473,45 @@ func vgRun(t *testing.T, s vgSched, idx int) []map[string]any {
 			}
 			emit(map[string]any{"ev": "DeleteGroups", "c": "", "gen": 0, "code": int(resp.Groups[0].ErrorCode)})
 		case "Tick":
+			releaseHeld()
+			if st.Hold {
+				gate.arm(vgGateWrite)
+			}
 			time.Sleep(time.Second) // virtual: the coordinator's own ticker fires at the same instant
-			synctest.Wait()         // ... and cleanupGroups has finished when every goroutine is blocked again
-			emit(map[string]any{"ev": "Tick", "c": "", "gen": 0, "code": 0})
+			synctest.Wait()         // ... and cleanupGroups has finished (or is parked at the gate) when every goroutine is blocked again
+			tick := map[string]any{"ev": "Tick", "c": "", "gen": 0, "code": 0}
+			if st.Hold && gate.isParked() {
+				if c.mu.TryLock() { // cleanup writes outside the lock
+					c.mu.Unlock()
+					holdsOutside++
+					tick["pending"] = true
+					emit(tick)
+					held = &heldStep{kind: "Tick"}
+					break
+				}
+				holdsUnderLock++
+				gate.open()
+				synctest.Wait()
+			} else if st.Hold {
+				gate.arm(0)
+				holdsNoIO++
+			}
+			emit(tick)
+		case "Release":
+			releaseHeld()
 		case "Failover":
+			releaseHeld()
 			c.Stop()
 			synctest.Wait()
-			c = NewGroupCoordinator(store, protocol.MetadataBroker{}, cfg)
+			c = NewGroupCoordinator(gate, protocol.MetadataBroker{}, cfg)
 			emit(map[string]any{"ev": "Failover", "c": "", "gen": 0, "code": 0})
 		default:
 			t.Fatalf("unknown step %q", st.A)
 		}
 	}
+	releaseHeld()
 	c.Stop()
 	synctest.Wait()
+	lines[0]["holds"] = map[string]any{"outside": holdsOutside, "underlock": holdsUnderLock, "noio": holdsNoIO}
 	return lines
 }
